@@ -252,6 +252,10 @@ class MultiTierCache(Entity):
 
         # Remove from backing store
         store_existed = yield from self._backing_store.delete(key)
+        # A miss fill that raced with the delete may have re-cached the deleted value
+        for tier in self._tiers:
+            if hasattr(tier, "invalidate"):
+                tier.invalidate(key)
 
         # Clean up access tracking
         self._access_counts.pop(key, None)
